@@ -22,7 +22,7 @@ from harness.core import cbool, clist, copt, err_name
 from harness.props import c05
 
 PID = "C06"
-TRANSLATE = ["EqReduce.v"]    # translator tie: coq/gen_proofs/EqReduce.v is re-proved against the reductions regenerated from /repo
+TRANSLATE = ["EqReduce.v", "EqNa.v"]    # translator tie: coq/gen_proofs/EqReduce.v is re-proved against the reductions regenerated from /repo
 PRELUDE = ("From Coq Require Import List ZArith.\nImport ListNotations.\n"
            "From Serif Require Import Base.PyVal Model.Dtype Model.Elementwise Model.NoneOps Corr.C05 Corr.C06.")
 FAILING = "C06.failing"
